@@ -28,6 +28,13 @@ class Enum:
         return "Enum(%s,%s)" % (self.variant, self.fields)
 
 
+class Closure(list):
+    """a closure value: behaves as the list of its captures (field i = capture i), remembers which body it is"""
+    def __init__(self, name, captures):
+        list.__init__(self, captures)
+        self.fn = name
+
+
 class Stuck(Exception):
     pass
 
@@ -40,15 +47,26 @@ MASK = {"i32": 32, "u32": 32, "usize": 64, "isize": 64, "u8": 8, "i64": 64, "u64
         "u16": 16, "i16": 16}
 
 
+def _box_internal(e):
+    """`*boxed` is lowered to boxed.0 (Unique) .pointer (NonNull) then a raw deref: transparent, like a reference"""
+    ty = e.get("ty") or ""
+    return e["k"] == "field" and (ty.startswith("std::ptr::Unique<") or ty.startswith("std::ptr::NonNull<") or ty.startswith("*const ")
+                                  or ty.startswith("*mut "))
+
+
 def read_place(env, p):
     if p["local"] not in env:
         return UNKNOWN
     v = env[p["local"]]
     for e in p["proj"]:
         k = e["k"]
+        if _box_internal(e):
+            continue
         if v is UNKNOWN:
             return UNKNOWN
         if k == "deref":
+            if isinstance(v, Ptr):
+                v = v.get()
             continue
         if k == "downcast":
             if isinstance(v, Enum) and v.variant != e["i"]:
@@ -77,47 +95,98 @@ def read_place(env, p):
     return v
 
 
+class Ptr:
+    """a reference to a place holding a scalar (containers are aliased by object identity instead)"""
+    def __init__(self, env, place):
+        self.env, self.place = env, place
+
+    def get(self):
+        return read_place(self.env, self.place)
+
+    def set(self, v):
+        write_place(self.env, self.place, v)
+
+    def __repr__(self):
+        return "&%r" % (self.get(),)
+
+
+POINTERS = False
+
+
+def deref(v):
+    n = 0
+    while isinstance(v, Ptr) and n < 8:
+        v = v.get()
+        n += 1
+    return v
+
+
+def become(obj, nv):
+    """overwrite the object a reference points to, in place (so that every alias sees it)"""
+    if isinstance(obj, Enum) and isinstance(nv, Enum):
+        obj.variant, obj.fields = nv.variant, list(nv.fields)
+        for k in ("name", "adt"):
+            if hasattr(nv, k):
+                setattr(obj, k, getattr(nv, k))
+            elif hasattr(obj, k):
+                delattr(obj, k)
+        return True
+    if isinstance(obj, list) and isinstance(nv, list) and type(obj) is list and type(nv) is list:
+        obj[:] = nv
+        return True
+    return False
+
+
 def write_place(env, p, val):
-    """Write through field / constant-or-local index projections into nested lists / Enum fields."""
-    steps = []
+    """Write through deref / field / constant-or-local index projections into nested lists / Enum fields."""
+    loc = p["local"]
+    get = lambda: env.get(loc, UNKNOWN)
+
+    def set_(v):
+        env[loc] = v
     for e in p["proj"]:
         k = e["k"]
-        if k in ("deref", "downcast"):
+        if k == "downcast" or _box_internal(e):
+            continue
+        if k == "deref":
+            v = get()
+            if isinstance(v, Ptr):
+                get, set_ = v.get, v.set
+            elif isinstance(v, (Enum, list)):
+                prev = set_
+
+                def set_(nv, obj=v, prev=prev):
+                    if not become(obj, nv):
+                        prev(nv)
+                get = lambda obj=v: obj
             continue
         if k == "field":
-            steps.append(e["i"])
+            i = e["i"]
         elif k == "index":
-            iv = env.get(e["local"], UNKNOWN)
-            if not isinstance(iv, int) or isinstance(iv, bool):
-                env[p["local"]] = UNKNOWN
+            i = env.get(e["local"], UNKNOWN)
+            if not isinstance(i, int) or isinstance(i, bool):
+                set_(UNKNOWN)
                 return
-            steps.append(iv)
         elif k == "const_index":
-            steps.append(e["offset"])
+            i = e["offset"]
         else:
-            env[p["local"]] = UNKNOWN
+            set_(UNKNOWN)
             return
-    if not steps:
-        env[p["local"]] = val
-        return
-    base = env.get(p["local"], UNKNOWN)
-    if base is UNKNOWN:
-        base = []
-        env[p["local"]] = base
-    cur = base
-    for n, i in enumerate(steps):
+        cur = get()
+        if cur is UNKNOWN or cur is None:
+            cur = []
+            set_(cur)
         cont = cur.fields if isinstance(cur, Enum) else cur
         if not isinstance(cont, list):
-            env[p["local"]] = UNKNOWN
+            set_(UNKNOWN)
             return
         while len(cont) <= i:
             cont.append(UNKNOWN)
-        if n == len(steps) - 1:
-            cont[i] = val
-        else:
-            if cont[i] is UNKNOWN:
-                cont[i] = []
-            cur = cont[i]
+        get = lambda cont=cont, i=i: cont[i]
+
+        def set_(v, cont=cont, i=i):
+            cont[i] = v
+    set_(val)
 
 
 def operand(env, o):
@@ -126,12 +195,37 @@ def operand(env, o):
     if o["k"] == "const":
         c = o["c"]
         v = c.get("val")
+        if v is None and c.get("promoted_body") is not None:
+            pv = _promoted(c)
+            if pv is not UNKNOWN:
+                return pv
+        if v is None and c.get("promoted_strs") and len(c["promoted_strs"]) == 1 and c.get("ty", "").startswith("&"):
+            return c["promoted_strs"][0]
         if isinstance(v, str) and c.get("ty") == "char":
             return ord(v)
         if v is not None:
             return v
         return UNKNOWN
     return UNKNOWN
+
+
+_PROMOTED = {}
+
+
+def _promoted(c):
+    """value of a promoted constant (`&(0, false)`, `&[..]`): evaluate its little MIR body"""
+    key = c.get("text")
+    if key in _PROMOTED:
+        return _PROMOTED[key]
+    v = UNKNOWN
+    try:
+        pf = mir.Func({"path": "promoted", "raw": "promoted", "kind": "Promoted", "vis": "Private", "span": "", "mir": c["promoted_body"]}, "lib")
+        kind, b, e2 = run_fragment(pf, 0, {}, oracle=lambda *x: None, max_visits=1)
+        v = deref(e2.get(0, UNKNOWN))
+    except Exception:
+        v = UNKNOWN
+    _PROMOTED[key] = v
+    return v
 
 
 def to_int(v):
@@ -190,13 +284,16 @@ def rvalue(env, rv):
     if k == "use":
         return operand(env, rv["op"])
     if k == "ref" or k == "rawptr":
-        return read_place(env, rv["place"])
+        v = read_place(env, rv["place"])
+        if POINTERS and (v is UNKNOWN or isinstance(v, (int, bool, str)) or v is None) and not isinstance(v, Ptr):
+            return Ptr(env, rv["place"])
+        return v
     if k == "cast":
         return operand(env, rv["op"])
     if k == "binop":
-        return binop(rv["op"], operand(env, rv["l"]), operand(env, rv["r"]))
+        return binop(rv["op"], deref(operand(env, rv["l"])), deref(operand(env, rv["r"])))
     if k == "unop":
-        v = operand(env, rv["operand"])
+        v = deref(operand(env, rv["operand"]))
         if v is UNKNOWN:
             return UNKNOWN
         if rv["op"] == "Not":
@@ -219,6 +316,8 @@ def rvalue(env, rv):
             e.adt = mir.norm(kd["adt"])
             e.name = kd["variant"]
             return e
+        if kd["k"] == "closure":
+            return Closure(mir.norm(kd["def"]), vals)
         return vals
     return UNKNOWN
 
@@ -255,7 +354,7 @@ def run_fragment(f, start, env, stops=(), oracle=None, max_blocks=400, on_block=
         if k == "goto":
             b = t["target"]
         elif k == "switch":
-            v = operand(env, t["discr"])
+            v = deref(operand(env, t["discr"]))
             if (v is UNKNOWN or isinstance(v, (Enum, list))) and stuck_ok:
                 return ("stuck", b, env)
             if v is UNKNOWN or isinstance(v, (Enum, list)):
